@@ -16,7 +16,7 @@ class C19(Property):
         "distance is the very product progress * dist), empty_path_default, interpolate_idx_zero, interpolate_beyond_last, "
         "interpolate_total / positionAt_total (no index read can panic on a curve), bsLoop_inv / bs_probe_in_range / idxOfDist_le "
         "(every get_unchecked probe of the search is in range; the result is in 0..=len), bsLoop_fuel, interpolate_degenerate, "
-        "interpolate_formula, position_first_of_idx_zero. Exact-arithmetic part: Props/C19Laws.lean. Model tied to the code bit-for-bit "
+        "interpolate_formula, position_first_of_idx_zero. No exact-arithmetic (law-dependent) theorem is proved for C19. Model tied to the code bit-for-bit "
         "(positions, distances, indices, also for NaN / unsorted lengths).")
     technique = "Lean 4 proof (generic arithmetic, structural) + bit-exact differential correspondence + independent oracle"
     required_theorems = ["progress_clamped", "progress_below_clamped", "progress_above_clamped", "position_clamped",
@@ -24,7 +24,7 @@ class C19(Property):
                          "interpolate_total", "positionAt_total", "bsLoop_inv", "bs_probe_in_range", "idxOfDist_le", "bsLoop_fuel",
                          "interpolate_degenerate", "interpolate_formula", "position_first_of_idx_zero"]
     partial_theorems = {
-        "position_at_zero_first / position_at_one_last / position_at_vertex": "not proved in general: they need 0*dist = 0, 1*dist = dist, (d1-d0)/(d1-d0) = 1 and the search landing on the right index, i.e. arithmetic laws plus sortedness; proved pieces: position_first_of_idx_zero, interpolate_formula, interpolate_degenerate; exact-arithmetic instances in Props/C19Laws.lean; otherwise tested by the oracle",
+        "position_at_zero_first / position_at_one_last / position_at_vertex": "not proved in general: they need 0*dist = 0, 1*dist = dist, (d1-d0)/(d1-d0) = 1 and the search landing on the right index, i.e. arithmetic laws plus sortedness; proved pieces: position_first_of_idx_zero, interpolate_formula, interpolate_degenerate; tested by the oracle",
         "position_lipschitz": "NOT proved (needs the curve invariant |path[i]-path[i-1]| <= len[i]-len[i-1] and norm laws); tested by the oracle with float slack",
     }
     trusted_base = [
